@@ -106,7 +106,7 @@ def run(tier, seed, replay=None):
     # routes: keyword, command line, configuration file
     if not replay or replay["case"].get("route") in ("kw", "cli", "config"):
         route_values = [14, 16, 25, 26, 13, 16384, 16385, 32768, 49152, 8192, 32, 2 ** 20,
-                        2 ** 20 + 1, -1, 100000, 131072]
+                        2 ** 20 + 1, -1, 100000, 131072] + [n for n in range(0, 31) if n not in (13, 14, 16, 25, 26)]
         if replay:
             route_values = [replay["case"]["value"]]
         route_values += [rng.choice([2 ** rng.randrange(10, 23) + rng.choice([0, 0, 1, -1, 16])])
@@ -152,7 +152,7 @@ def run(tier, seed, replay=None):
     # strings through the command line and the configuration file
     if not replay or replay["case"].get("route") in ("cli-str", "config-str"):
         svals = ["+15", "1_5", "1_6_3_8_4", "١٥", " 15", "15 ", "0x10", "15.0", "²", "-15", "015",
-                 "16", "16384", "16385", "1e5"]
+                 "16", "16384", "16385", "1e5", "4", "04", "004", "09", "014", "0014", "00", "025"]
         if replay:
             svals = [replay["case"]["string"]]
         with sandbox("c12s") as box:
@@ -258,6 +258,10 @@ def _route(route, v, root, box, PLE):
                 fd.write(f"[config]\npiece-length = {v}\n")
             impl.cli(["create", "--config", "--config-path", cfg, "--prog", "0", "-o", out, root])
     except PLE:
+        # "rejected ... instead of producing a metafile": nothing may be left at the output path
+        # (it did not exist before the call)
+        if os.path.lexists(out):
+            return ("ple-but-left-a-file:%d-bytes" % os.path.getsize(out), None)
         return ("ple", None)
     except SystemExit:
         return ("other:SystemExit", None)
